@@ -27,24 +27,11 @@ theorem pmrIntern_indep (S : Sys V α) (c : Config α) (p1 p2 : State α) (x r :
     pmrIntern S c p1 x r = pmrIntern S c p2 x r := by
   simp only [pmrIntern, setInitial_indep c p1 p2]
 
-/-- BiCGStab: independent as soon as the preconditioner does not fail on the initial defect -/
-theorem bicgIntern_indep (S : Sys V α) (c : Config α) (p1 p2 : State α) (x r : V) (h : S.prec 0 r ≠ none) :
+theorem bicgIntern_indep (S : Sys V α) (c : Config α) (p1 p2 : State α) (x r : V) :
     bicgIntern S c p1 x r = bicgIntern S c p2 x r := by
-  simp only [bicgIntern]
-  split
-  · rename_i heq; exact absurd heq h
-  · simp only [setInitial_indep c p1 p2]
+  simp only [bicgIntern, setInitial_indep c p1 p2]
 
-/-- BiCGStab: status and iterate never depend on the history (the early `aborted` return leaves the control members of
-    the previous solve in place — open finding c07-edge:F6) -/
-theorem bicgIntern_indep_status (S : Sys V α) (c : Config α) (p1 p2 : State α) (x r : V) :
-    (bicgIntern S c p1 x r).map (fun res => (res.status, res.x)) =
-      (bicgIntern S c p2 x r).map (fun res => (res.status, res.x)) := by
-  cases hp : S.prec 0 r with
-  | none => simp only [bicgIntern, hp, Option.map_some]
-  | some pt => rw [bicgIntern_indep S c p1 p2 x r (by rw [hp]; simp)]
-
-theorem solveOne_indep (k : Kind) (hk : k ≠ .bicgstab) (S : Sys V α) (c : Config α) (omega : α) (p1 p2 : State α)
+theorem solveOne_indep (k : Kind) (S : Sys V α) (c : Config α) (omega : α) (p1 p2 : State α)
     (isApply : Bool) (x0 b : V) :
     solveOne k S c omega p1 isApply x0 b = solveOne k S c omega p2 isApply x0 b := by
   cases k with
@@ -53,9 +40,9 @@ theorem solveOne_indep (k : Kind) (hk : k ≠ .bicgstab) (S : Sys V α) (c : Con
   | pcr => simp only [solveOne, pcrApply, pcrCorrect, pcrIntern_indep S c p1 p2]
   | pmr => simp only [solveOne, pmrApply, pmrCorrect, pmrIntern_indep S c p1 p2]
   | pcgnr => simp only [solveOne, pcgnrApply, pcgnrCorrect, pcgnrIntern_indep S c p1 p2]
-  | bicgstab => exact absurd rfl hk
+  | bicgstab => simp only [solveOne, bicgApply, bicgCorrect, bicgIntern_indep S c p1 p2]
 
-theorem runSession_indep (k : Kind) (hk : k ≠ .bicgstab) (S : Sys V α) (c : Config α) (omega : α) (st : State α)
+theorem runSession_indep (k : Kind) (S : Sys V α) (c : Config α) (omega : α) (st : State α)
     (l : List (Bool × V × V)) :
     ∀ prev : State α, runSession k S c omega prev l = independentSession k S c omega st l := by
   induction l with
@@ -64,35 +51,9 @@ theorem runSession_indep (k : Kind) (hk : k ≠ .bicgstab) (S : Sys V α) (c : C
     obtain ⟨isApply, x0, b⟩ := a
     intro prev
     simp only [runSession, independentSession]
-    rw [solveOne_indep k hk S c omega prev st]
+    rw [solveOne_indep k S c omega prev st]
     cases solveOne k S c omega st isApply x0 b with
     | none => rfl
     | some r => simp only [ih r.st]
-
-/-- the defect vector a solve starts from -/
-def startDefect (S : Sys V α) (isApply : Bool) (x0 b : V) : V := if isApply then b else resid S b x0
-
-theorem solveOne_indep_bicg (S : Sys V α) (c : Config α) (omega : α) (p1 p2 : State α) (isApply : Bool) (x0 b : V)
-    (h : S.prec 0 (startDefect S isApply x0 b) ≠ none) :
-    solveOne .bicgstab S c omega p1 isApply x0 b = solveOne .bicgstab S c omega p2 isApply x0 b := by
-  cases isApply
-  · simp only [solveOne, Bool.false_eq_true, ↓reduceIte, bicgCorrect]
-    exact bicgIntern_indep S c p1 p2 _ _ (by simpa [startDefect] using h)
-  · simp only [solveOne, ↓reduceIte, bicgApply]
-    exact bicgIntern_indep S c p1 p2 _ _ (by simpa [startDefect] using h)
-
-theorem runSession_indep_bicg (S : Sys V α) (c : Config α) (omega : α) (st : State α) (l : List (Bool × V × V))
-    (h : ∀ e ∈ l, S.prec 0 (startDefect S e.1 e.2.1 e.2.2) ≠ none) :
-    ∀ prev : State α, runSession .bicgstab S c omega prev l = independentSession .bicgstab S c omega st l := by
-  induction l with
-  | nil => intro prev; rfl
-  | cons a rest ih =>
-    obtain ⟨isApply, x0, b⟩ := a
-    intro prev
-    simp only [runSession, independentSession]
-    rw [solveOne_indep_bicg S c omega prev st isApply x0 b (h _ (List.mem_cons_self ..))]
-    cases solveOne Kind.bicgstab S c omega st isApply x0 b with
-    | none => rfl
-    | some r => simp only [ih (fun e he => h e (List.mem_cons_of_mem _ he)) r.st]
 
 end FeatModel.Solver
